@@ -21,6 +21,11 @@ CHECKS = {
          "Every closed ring of 3-4 free vertices on a small integer grid, every polyline of <=3 grid points, and every sequence of <=3 rings/polygons/lines over menus that include empty rings, empty polygons and degenerate rings, in 6 layouts and exact power-of-two scalings, has Area and Length computed by the real methods and compared with exact rational shoelace sums and 256-bit square-root sums under a forward error bound; additivity is checked against the part accessors and panics are violations.",
          "Bounded: <=3 parts, grid 4x4, scalings 2^-100..2^200. Area compared on closed rings only. Trusted: math/big.",
          "DESIGN.md section 2, C09"),
+ "C03": ("fault_enumeration",
+         "exhaustive enumeration of reader-split and writer-fault schedules (deviation-bounded choice-sequence DFS on the real codec) plus exhaustive input corpus against an independent reference encoder",
+         "Every corpus geometry (shape universe in 4 layouts + collections) in WKB, WKB-NaN and EWKB, both byte orders, six SRIDs and a special-float sweep is marshalled and compared byte for byte with an independent encoder, decoded and compared with the model (carve-outs computed), through Marshal/Unmarshal, Read/Write, hex and all SQL wrappers (incl. wrong-type and non-[]byte errors). Read is then driven over a fault-injecting reader on enc(g1)||enc(g2): every answer sequence with <=1 (quick) / <=2 (thorough) non-default answers and every chunk composition of encodings <=22 bytes; Write over a fault-injecting writer with a fault at every Write call. Each schedule must yield g1, g2, error and exact stream positions / a prefix of the reference bytes and the injected error.",
+         "Bounded: corpus shapes, <=2 reader deviations, 1 writer fault. Children SRID 0; (0,nil) reads excluded. Element limits set to 65536 during the stream phases (corpus counts <=3).",
+         "DESIGN.md section 2, C03"),
  "C08": ("model_checking",
          "explicit-state BFS over Extend histories on real Bounds values plus exhaustive enumeration of geometries and box pairs against a per-dimension reference fold",
          "Bounds() of every geometry of the shape universe and of every collection of <=3 members (mixed layouts, empty members, nested collections) is compared per semantic dimension (X,Y,Z,M located via ZIndex/MIndex) with a reference fold, together with IsEmpty, Bounds.Polygon and the GeoJSON bbox; all Extend histories up to depth 4/5 from five start layouts over a 12-geometry alphabet are executed on real Bounds values, each reached state compared with the fold over its multiset and with every other order reaching that multiset; Overlaps/OverlapsPoint are compared with closed-interval arithmetic on all pairs of small boxes incl. empty ones.",
